@@ -51,9 +51,10 @@ LINKS = {
         "ops": "pdu",
     },
     "C10": {
-        "modules": ["RtrProofs.CLinkMisc"],
-        "theorems": ["Rtr.CLink.tommy_inthash_u32_eq"],
-        "functions": ["tommy_inthash_u32"],
+        "modules": ["RtrProofs.CLinkMisc", "RtrProofs.CLinkSpki"],
+        "theorems": ["Rtr.CLink.tommy_inthash_u32_eq", "Rtr.CLink.key_entry_cmp_eq", "Rtr.CLink.key_entry_cmp_model",
+                     "Rtr.CLink.key_entry_to_spki_record_eq", "Rtr.CLink.spki_record_to_key_entry_eq"],
+        "functions": ["tommy_inthash_u32", "key_entry_cmp", "key_entry_to_spki_record", "spki_record_to_key_entry"],
         "ops": "hash",
     },
     "C14": {
@@ -181,7 +182,22 @@ def ops_pdu(r, n):
 
 
 def ops_hash(r, n):
-    return ["inthash %d" % v for v in edge32(r) + [r.randrange(U32) for _ in range(n)]]
+    ops = ["inthash %d" % v for v in edge32(r) + [r.randrange(U32) for _ in range(n)]]
+
+    def ent():
+        return [r.randrange(U32), bytearray(r.randrange(256) for _ in range(20)), bytearray(r.randrange(256) for _ in range(91)), r.randrange(1, 5)]
+    for _ in range(60):
+        a = ent()
+        variants = [list(a)]
+        b = list(a); b[0] = (a[0] + r.choice([1, 65536, 2 ** 31])) % U32; variants.append(b)
+        for pos in (0, 1, 19):
+            b = list(a); k = bytearray(a[1]); k[pos] ^= 1 << r.randrange(8); b[1] = k; variants.append(b)
+        for pos in (0, 19, 20, 21, 45, 89, 90):
+            b = list(a); k = bytearray(a[2]); k[pos] ^= 1 << r.randrange(8); b[2] = k; variants.append(b)
+        b = list(a); b[3] = a[3] + 1; variants.append(b)
+        for v in variants:
+            ops.append("key_cmp %d %s %s %d %d %s %s %d" % (a[0], a[1].hex(), a[2].hex(), a[3], v[0], v[1].hex(), v[2].hex(), v[3]))
+    return ops
 
 
 def ops_conv(r, n):
